@@ -162,6 +162,56 @@ impl ResourceStorage {
 //@ ENDSUBST
 //@END
 
+
+    // ---- the dependency closure of one injection ----------------------------------------------------------------------------
+}
+// the store resolves every resource it hands out under that resource's own name too (unit c13_store: C13.store.lookup.loaded)
+pub open spec fn store_names_wf(st: ResourceStorage) -> bool {
+    forall|d: Seq<char>| (#[trigger] internal_spec(st, d)) is Some ==> internal_spec(st, internal_spec(st, d)->Some_0.name@) == internal_spec(st, d)
+}
+// every entry of a dependency list is the store's resource of that name
+pub open spec fn from_store(l: Seq<&Resource>, st: ResourceStorage) -> bool {
+    forall|j: int| 0 <= j < l.len() ==> internal_spec(st, (#[trigger] l[j]).name@) == Some(*l[j])
+}
+// the resource the store resolves `d` to is in the list
+pub open spec fn has_res(l: Seq<&Resource>, st: ResourceStorage, d: Seq<char>) -> bool {
+    exists|j: int| 0 <= j < l.len() && internal_spec(st, d) == Some(*#[trigger] l[j])
+}
+// every dependency named by entry i is resolved and in the list
+pub open spec fn deps_listed(l: Seq<&Resource>, st: ResourceStorage, i: int) -> bool {
+    forall|k: int| 0 <= k < l[i].dependencies@.len() ==> has_res(l, st, (#[trigger] l[i].dependencies@[k])@)
+}
+// a dependency-closed list of resources, every member granted to the requesting list
+pub open spec fn closure_ok(own: Seq<&Resource>, st: ResourceStorage, granted: PermissionMask) -> bool {
+    (forall|i: int| 0 <= i < own.len() ==> perm_subset((#[trigger] own[i]).permission, granted))
+    && (forall|i: int| 0 <= i < own.len() ==> deps_listed(own, st, i))
+}
+// what an emitted scriptlet `res` comes with: a dependency-closed, fully granted list that resolves every dependency it names, each
+// member of which is in the page's list `fin`
+pub open spec fn closure_witness(own: Seq<&Resource>, st: ResourceStorage, granted: PermissionMask, res: Resource, fin: Seq<&Resource>) -> bool {
+    closure_ok(own, st, granted)
+    && (forall|k: int| 0 <= k < res.dependencies@.len() ==> has_res(own, st, (#[trigger] res.dependencies@[k])@))
+    && (forall|i: int| 0 <= i < own.len() ==> exists|j: int| 0 <= j < fin.len() && (#[trigger] fin[j]).name@ == (#[trigger] own[i]).name@)
+}
+// a list that only grew keeps what was resolved in it
+pub proof fn lemma_grow_keeps(a: Seq<&Resource>, b: Seq<&Resource>, st: ResourceStorage)
+    requires b.len() >= a.len(), b.subrange(0, a.len() as int) =~= a
+    ensures
+        forall|d: Seq<char>| has_res(a, st, d) ==> #[trigger] has_res(b, st, d),
+        forall|i: int| 0 <= i < a.len() && deps_listed(a, st, i) ==> #[trigger] deps_listed(b, st, i),
+{
+    assert forall|d: Seq<char>| has_res(a, st, d) implies #[trigger] has_res(b, st, d) by {
+        let j = choose|j: int| 0 <= j < a.len() && internal_spec(st, d) == Some(*#[trigger] a[j]);
+        assert(b.subrange(0, a.len() as int)[j] == a[j]);
+    }
+    assert forall|i: int| 0 <= i < a.len() && deps_listed(a, st, i) implies #[trigger] deps_listed(b, st, i) by {
+        assert(b.subrange(0, a.len() as int)[i] == a[i]);
+        assert forall|k: int| 0 <= k < b[i].dependencies@.len() implies has_res(b, st, (#[trigger] b[i].dependencies@[k])@) by {
+            assert(has_res(a, st, a[i].dependencies@[k]@));
+        }
+    }
+}
+impl ResourceStorage {
     // R6: `deps.iter().find(|dep| dep.name == name).is_some()` — is a resource of that name already listed
     #[verifier::external_body]
     fn vf_has_dep(deps: &Vec<&Resource>, name: &str) -> (r: bool)
@@ -177,6 +227,11 @@ impl ResourceStorage {
         // what was listed stays listed, and every resource this call lists was granted (Ok or Err)
         final(prev_deps)@.len() >= old(prev_deps)@.len() && final(prev_deps)@.subrange(0, old(prev_deps)@.len() as int) =~= old(prev_deps)@, // OBL C18.deps.frame
         forall|i: int| old(prev_deps)@.len() <= i < final(prev_deps)@.len() ==> perm_subset((#[trigger] final(prev_deps)@[i]).permission, filter_permission), // OBL C18.deps.all_granted
+        // on success the named resource is in the list, and every entry THIS call added has all its own dependencies in the list
+        // (entries that were there before are not re-examined: that is the early exit)
+        store_names_wf(*self) && from_store(old(prev_deps)@, *self) ==> from_store(final(prev_deps)@, *self), // OBL C18.deps.from_store
+        r is Ok && store_names_wf(*self) && from_store(old(prev_deps)@, *self) ==> has_res(final(prev_deps)@, *self, new_dep@)
+            && forall|i: int| old(prev_deps)@.len() <= i < final(prev_deps)@.len() ==> deps_listed(final(prev_deps)@, *self, i), // OBL C18.deps.added_entries_closed
 //@ ENDSPEC
 //@ SUBST R6
     prev_deps.iter().find(|dep| dep.name == new_dep).is_some()
@@ -193,14 +248,34 @@ impl ResourceStorage {
 //@ AT
         let ghost d0 = prev_deps@;
 //@ ENDBEFORE
+//@ AFTER
+    prev_deps.push(resource);
+//@ AT
+        proof {
+            assert(prev_deps@.subrange(0, d0.len() as int) =~= d0);
+            if store_names_wf(*self) && from_store(d0, *self) {
+                assert(internal_spec(*self, new_dep@) == Some(*resource));
+                assert(internal_spec(*self, resource.name@) == Some(*resource));
+                assert forall|j: int| 0 <= j < prev_deps@.len() implies internal_spec(*self, (#[trigger] prev_deps@[j]).name@) == Some(*prev_deps@[j]) by {
+                    if j < d0.len() { assert(prev_deps@.subrange(0, d0.len() as int)[j] == d0[j]); }
+                }
+            }
+        }
+//@ ENDAFTER
 //@ LOOP 1
             invariant
                 d0 == old(prev_deps)@,
                 prev_deps@.len() > d0.len() && prev_deps@.subrange(0, d0.len() as int) =~= d0,
                 forall|i: int| d0.len() <= i < prev_deps@.len() ==> perm_subset((#[trigger] prev_deps@[i]).permission, filter_permission),
+                it.seq().len() == resource.dependencies@.len(), forall|k: int| 0 <= k < resource.dependencies@.len() ==> *#[trigger] it.seq()[k] == resource.dependencies@[k],
+                *prev_deps@[d0.len() as int] == *resource, internal_spec(*self, new_dep@) == Some(*resource),
+                store_names_wf(*self) && from_store(d0, *self) ==> from_store(prev_deps@, *self), // OBL C18.deps.from_store
+                store_names_wf(*self) && from_store(d0, *self) ==> forall|i: int| d0.len() < i < prev_deps@.len() ==> deps_listed(prev_deps@, *self, i), // OBL C18.deps.added_entries_closed
+                store_names_wf(*self) && from_store(d0, *self) ==> forall|k: int| 0 <= k < it.index() ==> has_res(prev_deps@, *self, (#[trigger] resource.dependencies@[k])@), // OBL C18.deps.added_entries_closed
 //@ ENDLOOP
 //@ LOOPSTART 1
             let ghost dj = prev_deps@;
+            let ghost k0 = it.index() as int;
 //@ ENDLOOPSTART
 //@ SUBST R8
     self.recursive_dependencies(dep, prev_deps, filter_permission)?;
@@ -208,12 +283,49 @@ impl ResourceStorage {
     let vf_rr = self.recursive_dependencies(dep, prev_deps, filter_permission);
             proof {
                 assert(prev_deps@.subrange(0, d0.len() as int) =~= dj.subrange(0, d0.len() as int));
+                assert(prev_deps@.subrange(0, dj.len() as int)[d0.len() as int] == dj[d0.len() as int]);
                 assert forall|i: int| d0.len() <= i < prev_deps@.len() implies perm_subset((#[trigger] prev_deps@[i]).permission, filter_permission) by {
                     if i < dj.len() { assert(prev_deps@.subrange(0, dj.len() as int)[i] == dj[i]); }
+                }
+                if store_names_wf(*self) && from_store(d0, *self) && vf_rr is Ok {
+                    lemma_grow_keeps(dj, prev_deps@, *self);
+                    assert forall|i: int| d0.len() < i < prev_deps@.len() implies deps_listed(prev_deps@, *self, i) by {
+                        if i < dj.len() { assert(deps_listed(dj, *self, i)); }
+                    }
+                    assert forall|k: int| 0 <= k < k0 + 1 implies has_res(prev_deps@, *self, (#[trigger] resource.dependencies@[k])@) by {
+                        if k < k0 { assert(has_res(dj, *self, resource.dependencies@[k]@)); } else { assert(dep@ == resource.dependencies@[k0]@); }
+                    }
                 }
             }
             vf_rr?;
 //@ ENDSUBST
+//@ BEFORE#2
+    Ok(())
+//@ AT
+        proof {
+            if store_names_wf(*self) && from_store(d0, *self) {
+                let n = d0.len() as int;
+                assert(has_res(prev_deps@, *self, new_dep@)) by { assert(internal_spec(*self, new_dep@) == Some(*prev_deps@[n])); }
+                assert(deps_listed(prev_deps@, *self, n)) by {
+                    assert forall|k: int| 0 <= k < prev_deps@[n].dependencies@.len() implies has_res(prev_deps@, *self, (#[trigger] prev_deps@[n].dependencies@[k])@) by {
+                        assert(has_res(prev_deps@, *self, resource.dependencies@[k]@));
+                    }
+                }
+            }
+        }
+//@ ENDBEFORE
+//@ BEFORE#1
+    return Ok(());
+//@ AT
+            proof {
+                if from_store(prev_deps@, *self) {
+                    let i = choose|i: int| 0 <= i < prev_deps@.len() && (#[trigger] prev_deps@[i]).name@ == new_dep@;
+                    assert(internal_spec(*self, prev_deps@[i].name@) == Some(*prev_deps@[i]));
+                    assert(has_res(prev_deps@, *self, new_dep@));
+                }
+                assert(prev_deps@.subrange(0, prev_deps@.len() as int) =~= prev_deps@);
+            }
+//@ ENDBEFORE
 //@END
 
 //@EXTRACT src/resources/resource_storage.rs :: impl ResourceStorage :: fn get_scriptlet_resource
@@ -233,17 +345,72 @@ impl ResourceStorage {
             internal_spec(*self, name) is Some && perm_subset(internal_spec(*self, name)->Some_0.permission, filter_permission)
                 && injectable_kind(internal_spec(*self, name)->Some_0.kind)
         }), // OBL C18.scriptlet.granted
+        // ... and only together with its whole dependency closure: there is a list of resources, all granted to THIS injection's
+        // list, that holds every dependency the scriptlet names and every dependency of each of its members, and each member is in
+        // the page's list - whatever was in the page's list before (entries left by a refused scriptlet, or by other lists)
+        r is Ok && store_names_wf(*self) ==> exists|own: Seq<&Resource>| #[trigger] closure_witness(own, *self, filter_permission,
+            internal_spec(*self, js_ext_spec(parse_args_spec(scriptlet_args@)->Some_0[0]@))->Some_0, final(required_deps)@), // OBL C18.scriptlet.closure_granted_and_listed
 //@ ENDSPEC
 //@ SUBST R6*
     required_deps.iter()
 //@ WITH
     vf_iter(required_deps)
 //@ ENDSUBST
-//@ SUBST R8
+//@ SUBST R8#1
     for dep in
 //@ WITH
     for dep in it:
 //@ ENDSUBST
+//@ SUBST R8#2
+    for dep in
+//@ WITH
+    for dep in it:
+//@ ENDSUBST
+//@ SUBST R8
+    for dep in own_deps {
+//@ WITH
+    let ghost own = own_deps@;
+    let ghost dm = required_deps@;
+    for dep in it: own_deps
+        invariant
+            it.seq() == own, d0 == old(required_deps)@,
+            required_deps@.len() >= dm.len() && required_deps@.subrange(0, dm.len() as int) =~= dm,
+            required_deps@.len() >= d0.len() && required_deps@.subrange(0, d0.len() as int) =~= d0,
+            forall|i: int| d0.len() <= i < required_deps@.len() ==> perm_subset((#[trigger] required_deps@[i]).permission, filter_permission),
+            forall|i: int| 0 <= i < own.len() ==> perm_subset((#[trigger] own[i]).permission, filter_permission),
+            store_names_wf(*self) ==> closure_ok(own, *self, filter_permission) && forall|k: int| 0 <= k < resource.dependencies@.len() ==> has_res(own, *self, (#[trigger] resource.dependencies@[k])@),
+            forall|i: int| 0 <= i < it.index() ==> exists|j: int| 0 <= j < required_deps@.len() && (#[trigger] required_deps@[j]).name@ == (#[trigger] own[i]).name@,
+    {
+        let ghost dj = required_deps@;
+        let ghost i0 = it.index() as int;
+        proof { assert(dep == own[i0]); }
+//@ ENDSUBST
+//@ SUBST R8
+    |d| d.name == dep.name
+//@ WITH
+    |d: &&&Resource| -> (b: bool) ensures b == (d.name@ == dep.name@) { d.name == dep.name }
+//@ ENDSUBST
+//@ LOOPEND 3
+            proof {
+                assert(required_deps@.subrange(0, dm.len() as int) =~= dj.subrange(0, dm.len() as int));
+                assert(required_deps@.subrange(0, d0.len() as int) =~= dj.subrange(0, d0.len() as int));
+                assert forall|i: int| d0.len() <= i < required_deps@.len() implies perm_subset((#[trigger] required_deps@[i]).permission, filter_permission) by {
+                    if i < dj.len() { assert(required_deps@.subrange(0, dj.len() as int)[i] == dj[i]); } else { assert(*required_deps@[i] == *own[i0]); }
+                }
+                assert forall|i: int| 0 <= i < i0 + 1 implies exists|j: int| 0 <= j < required_deps@.len() && (#[trigger] required_deps@[j]).name@ == (#[trigger] own[i]).name@ by {
+                    if i < i0 {
+                        let j = choose|j: int| 0 <= j < dj.len() && (#[trigger] dj[j]).name@ == own[i].name@;
+                        assert(required_deps@.subrange(0, dj.len() as int)[j] == dj[j]);
+                    } else if required_deps@.len() > dj.len() {
+                        assert(required_deps@[dj.len() as int].name@ == own[i0].name@);
+                    } else {
+                        // not pushed: find accepted some entry of the list
+                        let j = choose|j: int| 0 <= j < dj.len() && (#[trigger] dj[j]).name@ == dep.name@;
+                        assert(required_deps@[j].name@ == own[i0].name@);
+                    }
+                }
+            }
+//@ ENDLOOPEND
 //@ BEFORE
     let scriptlet_name =
 //@ AT
@@ -270,6 +437,68 @@ impl ResourceStorage {
             }
             vf_rr?;
 //@ ENDSUBST
+//@ SUBST R8
+    let mut own_deps = vec![];
+//@ WITH
+    let mut own_deps: Vec<&Resource> = vec![];
+//@ ENDSUBST
+//@ LOOP 2
+            invariant
+                d0 == old(required_deps)@,
+                required_deps@.len() >= d0.len() && required_deps@.subrange(0, d0.len() as int) =~= d0,
+                forall|i: int| d0.len() <= i < required_deps@.len() ==> perm_subset((#[trigger] required_deps@[i]).permission, filter_permission),
+                it.seq().len() == resource.dependencies@.len(), forall|k: int| 0 <= k < resource.dependencies@.len() ==> *#[trigger] it.seq()[k] == resource.dependencies@[k],
+                store_names_wf(*self) ==> from_store(own_deps@, *self),
+                forall|i: int| 0 <= i < own_deps@.len() ==> perm_subset((#[trigger] own_deps@[i]).permission, filter_permission),
+                store_names_wf(*self) ==> forall|i: int| 0 <= i < own_deps@.len() ==> deps_listed(own_deps@, *self, i),
+                store_names_wf(*self) ==> forall|k: int| 0 <= k < it.index() ==> has_res(own_deps@, *self, (#[trigger] resource.dependencies@[k])@),
+//@ ENDLOOP
+//@ LOOPSTART 2
+            let ghost oj = own_deps@;
+            let ghost k0 = it.index() as int;
+//@ ENDLOOPSTART
+//@ SUBST R8
+    self.recursive_dependencies(dep, &mut own_deps, filter_permission)?;
+//@ WITH
+    let vf_r2 = self.recursive_dependencies(dep, &mut own_deps, filter_permission);
+            proof {
+                assert(own_deps@.subrange(0, oj.len() as int) =~= oj);
+                assert forall|i: int| 0 <= i < own_deps@.len() implies perm_subset((#[trigger] own_deps@[i]).permission, filter_permission) by {
+                    if i < oj.len() { assert(own_deps@.subrange(0, oj.len() as int)[i] == oj[i]); }
+                }
+                if store_names_wf(*self) && vf_r2 is Ok {
+                    lemma_grow_keeps(oj, own_deps@, *self);
+                    assert forall|i: int| 0 <= i < own_deps@.len() implies deps_listed(own_deps@, *self, i) by {
+                        if i < oj.len() { assert(own_deps@.subrange(0, oj.len() as int)[i] == oj[i]); assert(deps_listed(oj, *self, i)); }
+                    }
+                    assert forall|k: int| 0 <= k < k0 + 1 implies has_res(own_deps@, *self, (#[trigger] resource.dependencies@[k])@) by {
+                        if k < k0 { assert(has_res(oj, *self, resource.dependencies@[k]@)); }
+                    }
+                }
+            }
+            vf_r2?;
+//@ ENDSUBST
+//@ AFTER
+    let template = String::from_utf8(BASE64_STANDARD.decode(&resource.content)?)?;
+//@ AT
+        let ghost dz = required_deps@;
+        proof { if store_names_wf(*self) { assert(closure_witness(own, *self, filter_permission, *resource, dz)); } }
+//@ ENDAFTER
+//@ AFTER
+                required_deps.push(resource);
+            }
+//@ AT
+            proof {
+                if store_names_wf(*self) {
+                    assert(required_deps@.subrange(0, dz.len() as int) =~= dz);
+                    assert forall|i: int| 0 <= i < own.len() implies exists|j: int| 0 <= j < required_deps@.len() && (#[trigger] required_deps@[j]).name@ == (#[trigger] own[i]).name@ by {
+                        let j = choose|j: int| 0 <= j < dz.len() && (#[trigger] dz[j]).name@ == own[i].name@;
+                        assert(required_deps@.subrange(0, dz.len() as int)[j] == dz[j]);
+                    }
+                    assert(closure_witness(own, *self, filter_permission, *resource, required_deps@));
+                }
+            }
+//@ ENDAFTER
 //@ SUBST R6
     String::from_utf8(BASE64_STANDARD.decode(&resource.content)?)?
 //@ WITH
